@@ -418,7 +418,7 @@ def block_pool():
               "|h|k|\n|:-|-:|\n|" + i + "|x|\n"]
     B += ["|a|b|c|\n|:-:|-|-:|\n|1|2|3|\n", "|a|b|\n|:-|-|\n|*x*|`y`|\n", "|a|b|c|d|\n|-|:-|-|:-:|\n|1|2|3|4|\n|5|6|7|8|\n", "|h|\n|:-:|\n|c|\n|d|\n", "|a|b|c|\n|-|-|-|\n|1|2|\n", "Term *e*\n: def `c`\n\nT2\n: d2\n: d3\n", "Outer\n: first def\n\n  Inner\n  : inner def\n: second def\n\nNext\n: n1\n", "0) zero paren\n1) one\n", ":name *e*: body `c`\n:n2:\n", "$$\nm\n$$\n", "$$m$$ (lbl)\n",
           "a $m$ ~~s *e*~~ b\n", "+++ meta\n", "% com\n", "(tgt)=\n", "\\begin{equation}a\\end{equation}\n", "- [ ] t\n- [x] u\n", "\"q\" -- (c) ...\n",
-          "```py\ncode\n```\n", "```\nplain\n```\n", "~~~unknownlang\nx\n\ny\n~~~\n", "    ind\n", "    ind1\n\n    ind2\n", "<div>\nh\n</div>\n", "---\n", "***\n", "0. zero\n",
+          "```py\ncode\n```\n", "```JSON attr\n{}\n```\n", "```\nplain\n```\n", "~~~unknownlang\nx\n\ny\n~~~\n", "    ind\n", "    ind1\n\n    ind2\n", "<div>\nh\n</div>\n", "---\n", "***\n", "0. zero\n",
           "- a\n\n  para2\n- b\n", "> q1\n>\n> q2\n", "+ plus\n", "<!-- c -->\n", "[ref]: http://d\n\n[x][ref]\n"]
     return B
 
